@@ -570,7 +570,10 @@ def eval_dyad_join(a, b, backend):
             if len(a) == 0:
                 return b
             if len(a.shape) == len(b.shape) and a.shape[-1] == b.shape[-1]:
-                return bknp.concatenate((a,b))
+                try:
+                    return bknp.concatenate((a,b))
+                except ValueError:
+                    pass  # inner dimensions differ: join member by member below
 
     aa = _arr_to_list(a)
     bb = _arr_to_list(b)
@@ -584,7 +587,13 @@ def eval_dyad_join(a, b, backend):
     # Use numpy directly for object arrays (backends without object dtype need this)
     # Convert backend arrays to numpy first (needed for device-backed arrays)
     r_numpy = [backend.to_numpy(x) if backend.is_array(x) else x for x in r]
-    return numpy.asarray(r_numpy, dtype=object)
+    try:
+        return numpy.asarray(r_numpy, dtype=object)
+    except ValueError:  # member arrays of equal length but different shape cannot be stacked
+        out = numpy.empty(len(r_numpy), dtype=object)
+        for i, x in enumerate(r_numpy):
+            out[i] = x
+        return out
 
 
 def eval_dyad_less(a, b, backend):
